@@ -1,6 +1,9 @@
 import Dmn.Lemmas.BifsPos
 import Dmn.Model.BifEval
 import Dmn.Lemmas.MergeSort
+import Dmn.Lemmas.BifsStatsStddev
+import Dmn.Lemmas.BifsStatsSort
+import Dmn.Lemmas.BifsStatsExactStddev
 
 /-!
 # C08 — built-in functions return their specified value for all arguments; named = positional
@@ -716,6 +719,145 @@ theorem former_panics_are_null (m : IntMode) :
       ∧ sublist3At m [n1 1, n1 2, n1 3] (false, 2) 18446744073709551615 = .ok none
       ∧ substringAt m ['a', 'b', 'c'] 2 (some 18446744073709551615) = .ok none := by
   cases m <;> refine ⟨?_, ?_, ?_⟩ <;> rfl
+
+/-! ## 6. Statistics and sort against declarative specifications
+
+`mode`, `stddev`, `median` and `sort` stated without reference to the algorithm of `core.rs`:
+`Spec.mode` (values whose number of occurrences is maximal, `List.countP` / `List.filter` over
+numeric equality), `Spec.stddev` (`sqrt (Σ (xᵢ − mean)² / (n − 1))` over the rounded operations),
+the middle of the stable ascending arrangement, and `Spec.StableSortOf` for every ordering
+function that is a strict weak order on the items. -/
+
+/-- `mode(list)` on the whole argument space: for a list of numbers exactly `Spec.mode` (sort,
+run-length scan, second sort and selection of the maxima compute it), `[]` for `[]`, null as
+soon as an item is not a number. -/
+theorem core_mode_spec (xs : List Value) : core_mode xs = .ok (Spec.modeSpecV xs) := core_mode_eq xs
+
+/-- … on lists of numbers -/
+theorem core_mode_numbers (ds : List Dec) : core_mode (ds.map .num) = .ok (.list ((Spec.mode ds).map .num)) := by
+  rw [core_mode_eq, Spec.modeSpecV, allNums_map_num]
+
+/-- an item that is not a number makes `mode` null -/
+theorem core_mode_non_number (xs : List Value) (h : Spec.allNums xs = none) : core_mode xs = .ok .null := by
+  rw [core_mode_eq, Spec.modeSpecV, h]
+
+example : Spec.allNums [.num ⟨false, 1, 0⟩, .null] = none := rfl
+
+/-- `Spec.mode` is strictly ascending: no value is repeated, in any spelling. -/
+theorem mode_ascending (ds : List Dec) : (Spec.mode ds).Pairwise (fun a b => Dec.cmp a b = .lt) :=
+  mode_strictly_ascending ds
+
+/-- The members of `Spec.mode ds`: `d` is the first item of `ds` with its value (`1.0` stands for
+`[1.0, 1, 1.00]`) and no value of `ds` occurs more often. -/
+theorem mem_mode_iff (ds : List Dec) (d : Dec) :
+    d ∈ Spec.mode ds ↔ (ds.filter (fun x => Spec.numEq x d)).head? = some d ∧
+      ∀ e ∈ ds, Spec.occurrences ds e ≤ Spec.occurrences ds d := by
+  rw [mem_mode_iff', mem_firstSpellings_iff, occursMost_iff]
+  rfl
+
+/-- These two facts determine the list: `Spec.mode` does not depend on how "ascending" is
+computed. -/
+theorem mode_unique (ds r : List Dec) (hasc : r.Pairwise (fun a b => Dec.cmp a b = .lt))
+    (hmem : ∀ d, d ∈ r ↔ (ds.filter (fun x => Spec.numEq x d)).head? = some d ∧
+      ∀ e ∈ ds, Spec.occurrences ds e ≤ Spec.occurrences ds d) : r = Spec.mode ds :=
+  eq_of_strictly_ascending hasc (mode_strictly_ascending ds) (fun d => by rw [hmem d, mem_mode_iff])
+
+example : Spec.mode [⟨false, 10, -1⟩, ⟨false, 2, 0⟩, ⟨false, 1, 0⟩, ⟨true, 5, 0⟩, ⟨false, 20, -1⟩]
+    = [⟨false, 10, -1⟩, ⟨false, 2, 0⟩] := by decide
+
+/-- `median(list)` in closed form: with `s` the stable ascending arrangement of the numbers (a
+permutation, ascending, every value's spellings in their original order — unique by
+`stable_sort_unique`), the middle item for an odd count, the rounded mean of the two middle items for
+an even count. (`core_median_spec` above is the equation on the whole argument space.) -/
+theorem core_median_closed_form (ds : List Dec) (hne : ds ≠ []) :
+    ∃ s : List Dec, s.Perm ds ∧ s.Pairwise (fun a b => Dec.cmp a b ≠ .gt) ∧
+      (∀ d, s.filter (fun x => Spec.numEq x d) = ds.filter (fun x => Spec.numEq x d)) ∧
+      (ds.length % 2 = 1 → ∃ m, s[ds.length / 2]? = some m ∧ core_median (ds.map .num) = .ok (.num m)) ∧
+      (ds.length % 2 = 0 → ∃ a b, s[ds.length / 2 - 1]? = some a ∧ s[ds.length / 2]? = some b ∧
+        core_median (ds.map .num) = .ok (.num (Dec.divR (Dec.addR a b) ⟨false, 2, 0⟩))) :=
+  median_closed_form ds hne
+
+example : ([⟨false, 1, 0⟩] : List Dec) ≠ [] := by simp
+
+/-- `stddev(list)` on the whole argument space: the sample standard deviation
+`sqrt (Σ (xᵢ − mean)² / (n − 1))`, `mean = Σ xᵢ / n`, every operation the rounded `FeelNumber`
+operation and the sums taken from the left (`Spec.stddev`); null for fewer than two items or an
+item that is not a number. -/
+theorem core_stddev_spec (xs : List Value) : core_stddev xs = .ok (Spec.stddevV xs) := core_stddev_eq xs
+
+/-- … on lists of at least two numbers -/
+theorem core_stddev_numbers (ds : List Dec) (h : 2 ≤ ds.length) :
+    core_stddev (ds.map .num) = .ok (.num (Spec.stddev ds)) := by
+  rw [core_stddev_eq, Spec.stddevV, if_neg (by rw [List.length_map]; omega), allNums_map_num]
+
+example : 2 ≤ ([⟨false, 1, 0⟩, ⟨false, 3, 0⟩] : List Dec).length := by decide
+
+/-- … null for fewer than two items -/
+theorem core_stddev_short (xs : List Value) (h : xs.length < 2) : core_stddev xs = .ok .null := by
+  rw [core_stddev_eq, Spec.stddevV, if_pos h]
+
+example : ([.num ⟨false, 1, 0⟩] : List Value).length < 2 := by decide
+
+/-- Exactness: when every intermediate result is an integer below `10^34` no operation rounds.
+Integer items of magnitude at most `M` (`1 ≤ M`, `n · 4M² < 10^34`) whose mean is an integer `m` and
+whose sum of squared deviations is `r² · (n − 1)`: `stddev` returns the integer `r` (a number with
+a non-negative exponent whose value is `r`; numerically equal to the literal `r`).  The rounded
+sum, difference, product, quotient and square root of `FeelNumber` are exact on such operands
+(`addR_rep`, `subR_rep`, `mulR_rep`, `divR_rep`, `sqrtR_rep` of `Lemmas/BifsStatsExact*.lean`). -/
+theorem core_stddev_exact_integers (zs : List Int) (m : Int) (r M : Nat) (hn : 2 ≤ zs.length)
+    (hM1 : 1 ≤ M) (hM : ∀ z ∈ zs, z.natAbs ≤ M) (hsize : zs.length * (4 * M * M) < 10 ^ 34)
+    (hmean : zs.sum = m * zs.length)
+    (hvar : (zs.map (fun z => (z - m) * (z - m))).sum = ((r * r : Nat) : Int) * ((zs.length : Int) - 1)) :
+    ∃ d : Dec, core_stddev ((zs.map Dec.ofInt).map .num) = .ok (.num d) ∧
+      0 ≤ d.exp ∧ d.scoeff * 10 ^ d.exp.toNat = (r : Int) ∧ Dec.cmp d (Dec.ofNat r) = .eq := by
+  have h := stddev_exact_rep zs m r M hn hM1 hM hsize hmean hvar
+  exact ⟨_, core_stddev_numbers _ (by rw [List.length_map]; exact hn), h.1, h.2, rep_cmp_eq h⟩
+
+-- stddev(3, 5, 7) = 2
+example : ∃ d : Dec, core_stddev (([3, 5, 7] : List Int).map Dec.ofInt |>.map .num) = .ok (.num d) ∧
+    0 ≤ d.exp ∧ d.scoeff * 10 ^ d.exp.toNat = ((2 : Nat) : Int) ∧ Dec.cmp d (Dec.ofNat 2) = .eq :=
+  core_stddev_exact_integers [3, 5, 7] 5 2 7 (by decide) (by decide) (by decide) (by norm_num) (by decide) (by decide)
+
+/-- `sort(list, precedes)`: for EVERY ordering function `lt` (the evaluated function value, taken
+as an oracle) that is a strict weak order on the items of the list — nothing is asked of it on
+other values, where a FEEL comparison is null — the merge sort of `core::sort` returns a
+permutation of the list in which no item precedes an earlier one and the items of equal rank
+keep their order: the sort is stable. -/
+theorem core_sort_stable_spec {α : Type} (lt : α → α → Bool) (xs : List α)
+    (h : Spec.StrictWeakOrderOn lt xs) : Spec.StableSortOf lt xs (mergeSort lt xs) := by
+  have hm := mergeSort_map Subtype.val lt xs.attach
+  rw [List.attach_map_subtype_val] at hm
+  rw [← hm]
+  exact stableSortOf_of_attach _ (mergeSort_stable (ltOn lt xs) (ltOn_asym h) (ltOn_negtrans h) xs.attach)
+
+example : Spec.StrictWeakOrderOn (fun (a b : Nat) => decide (a < b)) [3, 1, 2, 1] :=
+  ⟨by decide, by decide, by decide, by decide⟩
+
+/-- A list has only one stable arrangement: `core_sort_stable_spec` determines the result. -/
+theorem stable_sort_unique {α : Type} (lt : α → α → Bool) (xs r r' : List α)
+    (hirr : ∀ a ∈ xs, lt a a = false)
+    (h : Spec.StableSortOf lt xs r) (h' : Spec.StableSortOf lt xs r') : r = r' :=
+  stableSortOf_unique lt xs r r' hirr h h'
+
+example : ∀ a ∈ [3, 1, 2, 1], (fun (a b : Nat) => decide (a < b)) a a = false := by decide
+
+/-- The executable form of the two theorems above is the law `sort_law` of
+`harness/src/c08.rs` ("the stable arrangement under the direct-invocation relation"): it tests the
+four conditions of `Spec.StrictWeakOrderOn` on the table of the implementation's own answers
+`f(i, j)` and builds `Spec.stableArrangement` (each item behind those placed before it, moved left
+past the items it precedes).  Whenever the conditions hold, that list is what `core::sort`
+returns. -/
+theorem core_sort_eq_stable_arrangement {α : Type} (lt : α → α → Bool) (xs : List α)
+    (h : Spec.StrictWeakOrderOn lt xs) : mergeSort lt xs = Spec.stableArrangement lt xs := by
+  apply stableSortOf_unique lt xs _ _ h.irrefl (core_sort_stable_spec lt xs h)
+  have hm := stableArrangement_map Subtype.val lt xs.attach
+  rw [List.attach_map_subtype_val] at hm
+  rw [← hm]
+  exact stableSortOf_of_attach _ (stableArrangement_stable (ltOn lt xs) (ltOn_asym h) (ltOn_negtrans h) xs.attach)
+
+example : mergeSort (fun (a b : Nat × Nat) => decide (a.1 < b.1)) [(3, 0), (1, 1), (2, 2), (1, 3)]
+    = [(1, 1), (1, 3), (2, 2), (3, 0)] := by
+  simp [mergeSort, mergeSortFuel, merge]
 
 end Bif
 end Dmn
